@@ -200,10 +200,22 @@ func Mutate(r *hx.Rand, orig *Bundle, rule string) (m *Bundle, element string, o
 			s.d.SFields = append(s.d.SFields, s.d.SFields[0])
 			return b, s.d.SFields[0].Name, true
 		default:
-			// two new structs that contain each other
-			s.f.Defs = append(s.f.Defs,
-				Def{Kind: "struct", Name: "CycA", SFields: []SField{{Name: "b", Ty: Ty{Base: BaseT{Kind: BName, Name: "CycB"}}}}},
-				Def{Kind: "struct", Name: "CycB", SFields: []SField{{Name: "a", Ty: Ty{Base: BaseT{Kind: BName, Name: "CycA"}}}}})
+			// two or three new structs that contain each other; the field that closes the cycle sits
+			// at any position among other (value-typed) fields
+			names := []string{"CycA", "CycB", "CycC"}[:2+r.Intn(2)]
+			for i, n := range names {
+				link := SField{Name: "next", Ty: Ty{Base: BaseT{Kind: BName, Name: names[(i+1)%len(names)]}}}
+				var fs []SField
+				pre, post := r.Intn(3), r.Intn(3)
+				for k := 0; k < pre; k++ {
+					fs = append(fs, SField{Name: "p" + string(rune('a'+k)), Ty: Ty{Base: BaseT{Kind: BName, Name: "int32"}}})
+				}
+				fs = append(fs, link)
+				for k := 0; k < post; k++ {
+					fs = append(fs, SField{Name: "q" + string(rune('a'+k)), Ty: Ty{Base: BaseT{Kind: BName, Name: "int64"}}})
+				}
+				s.f.Defs = append(s.f.Defs, Def{Kind: "struct", Name: n, SFields: fs})
+			}
 			return b, "Cyc", true
 		}
 	case "missing-import":
